@@ -219,7 +219,10 @@ def run(ctx):
             r2.ok(key, "unconditional within its function (the function itself is the check)", fi.loc(c))
         else:
             others = [s for s in body if s is not st and not _is_message_building(s, st)]
-            doc = next((v for k, v in documented.items() if k in norm(st) or any(k in norm(o) for o in others) or k in " ".join(guard_texts(st, stop=fi.node))), None)
+            # (the message may be a module constant: documented exceptions are recognised by the folded message text)
+            okm_, msg_ = const_str(ctx, fi.module, c.args[0]) if c.args else (False, None)
+            folded_ = msg_ if (okm_ and isinstance(msg_, str)) else ""
+            doc = next((v for k, v in documented.items() if k in norm(st) or k in folded_ or any(k in norm(o) for o in others) or k in " ".join(guard_texts(st, stop=fi.node))), None)
             if not others:
                 r2.ok(key, "the guarded block only emits the warning", fi.loc(c))
             elif doc:
